@@ -273,7 +273,7 @@ func ParseTimestamp(dateStr string) (Timestamp, error) {
 		return invalidTimestamp(dateStr)
 	}
 
-	year, err := strconv.ParseInt(dateStr[:4], 10, 32)
+	year, err := parseTimestampField(dateStr[:4])
 	if err != nil || year < 1 {
 		return invalidTimestamp(dateStr)
 	}
@@ -291,7 +291,7 @@ func ParseTimestamp(dateStr string) (Timestamp, error) {
 		return invalidTimestamp(dateStr)
 	}
 
-	month, err := strconv.ParseInt(dateStr[5:7], 10, 32)
+	month, err := parseTimestampField(dateStr[5:7])
 	if err != nil {
 		return invalidTimestamp(dateStr)
 	}
@@ -309,7 +309,7 @@ func ParseTimestamp(dateStr string) (Timestamp, error) {
 		return invalidTimestamp(dateStr)
 	}
 
-	day, err := strconv.ParseInt(dateStr[8:10], 10, 32)
+	day, err := parseTimestampField(dateStr[8:10])
 	if err != nil {
 		return invalidTimestamp(dateStr)
 	}
@@ -372,6 +372,17 @@ func ParseTimestamp(dateStr string) (Timestamp, error) {
 	}
 
 	return invalidTimestamp(dateStr)
+}
+
+// parseTimestampField parses the year, month or day field of a timestamp: decimal digits only.
+// strconv.ParseInt alone would accept a sign ("+200T", "2000-+2T", "2000-02-+9").
+func parseTimestampField(s string) (int64, error) {
+	for i := 0; i < len(s); i++ {
+		if !isDigit(int(s[i])) {
+			return 0, fmt.Errorf("ion: invalid timestamp field: '%v'", s)
+		}
+	}
+	return strconv.ParseInt(s, 10, 32)
 }
 
 func computeOffset(val string, idx int) (int64, int64, error) {
